@@ -35,6 +35,10 @@ import PyhamModel.Lemmas.NewickLemmas
 import PyhamModel.Lemmas.AggLemmas
 import PyhamModel.Lemmas.RoundtripLoaded
 import PyhamModel.Lemmas.Declared
+import PyhamModel.Lemmas.NestedPg
+import PyhamModel.Lemmas.NestedPgCx
+import PyhamModel.Lemmas.Locality
+import PyhamModel.Lemmas.OmaLemmas
 namespace Pyham.Props
 open Pyham
 
@@ -370,6 +374,56 @@ theorem C14_spelling_iff (q : Taxon) (l l' : SL) (n : Node) (h : SameL l l') :
     Realises q l n ↔ Realises q l' n :=
   Pyham.C14_spelling_iff q l l' n h
 
+/-- **nested vs flat paralogGroups** (a multi-copy duplication written as directly nested paralogGroups or as
+    one flat paralogGroup): if the flattened spelling of a file loads, the nested spelling loads to the SAME
+    analysis -- for any input whatsoever (consistent or not), provided every directly nested paralogGroup
+    contributes a member (`nestsOkL`; otherwise the loader rejects the file, C20).
+
+    The full statement (without `noTaxRangeL`) is FALSE of the model and is not claimed: when a species-level
+    group is dissolved into its parent inside a paralogGroup (the `TaxRange` collapse branch, outside the
+    domain of the properties, DESIGN §6 D7) a paralogGroup nested directly after it starts a second
+    DuplicationNode; `C14_nested_eq_flat_needs_no_collapse` is the kernel-checked counterexample.  Hence the
+    `_partial` theorem: files without TaxRange properties.  Labelled files are covered for flat spellings by
+    `C03_load_realises` / `C14_spelling_iff`, and nested + labelled files by the correspondence run only. -/
+theorem C14_nested_eq_flat_partial (T : STree) (nm : Naming) (inp : Input) (H : Ham)
+    (hn : nestsOkL inp.groups = true) (ht : noTaxRangeL inp.groups = true)
+    (h : load T nm { inp with groups := flatItems inp.groups } = .ok H) :
+    load T nm inp = .ok H :=
+  Pyham.C14_nested_eq_flat_partial T nm inp H hn ht h
+
+theorem C14_nested_eq_flat_needs_no_collapse :
+    nestsOkL cxGroups = true ∧
+    (load cxTree .own (Input.mk cxSpecies cxGroups)).toOption.map (·.reg.length) = some 3 ∧
+    (load cxTree .own (Input.mk cxSpecies (flatItems cxGroups))).toOption.map (·.reg.length) = some 4 :=
+  Pyham.C14_nested_eq_flat_needs_no_collapse
+
+/-- **position in the file, other families** (C14 re-ordering of families; C11 "identical to the same family
+    in an unfiltered load ... the position of a selected family in the file does not matter"; C01 "no gene is
+    moved"): if two files both load and contain the same top-level group, the family loaded for it is the
+    same hierarchy in both -- members, taxon of every HOG, duplication grouping, annotations -- up to the
+    numbering of objects (`Node.shift`; `shift_*` below say what the renumbering preserves) -/
+theorem C11_family_identical (env : Env) (es es' : List Elem) (tops tops' : List Node) (ps ps' : PS)
+    (hog : es.all isOg = true) (hog' : es'.all isOg = true)
+    (h : topElems env none es [] {} = .ok (tops, ps)) (h' : topElems env none es' [] {} = .ok (tops', ps'))
+    (i j : Nat) (hi : i < es.length) (hj : j < es'.length) (he : es[i] = es'[j]) :
+    ∃ (n : Node) (k k' : Nat) (h1 : i < tops.length) (h2 : j < tops'.length),
+      tops[i] = n.shift k ∧ tops'[j] = n.shift k' :=
+  Pyham.C11_family_identical env es es' tops tops' ps ps' hog hog' h h' i j hi hj he
+
+/-- loading one family after anything = loading it alone, renumbered (errors included) -/
+theorem C11_family_local (env : Env) (hid og : Option String) (its : List Elem) (tops0 : List Node) (ps0 : PS)
+    (hi : ps0.idle) (hf : ps0.fresh) :
+    topElem env none (.og hid og its) tops0 ps0 =
+      match topElem env none (.og hid og its) [] {} with
+      | .error e => .error e
+      | .ok (res, ps') => .ok (tops0 ++ Node.shiftL ps0.next res, ps0.after ps') :=
+  family_local env hid og its tops0 ps0 hi hf
+
+/-- what renumbering preserves: members, taxa of all HOGs, and per HOG the duplication grouping and annotations -/
+theorem C11_shift_preserves (k : Nat) (n : Node) :
+    (n.shift k).leaves = n.leaves ∧ (n.shift k).tx = n.tx ∧ (n.shift k).hogs.map Node.tx = n.hogs.map Node.tx :=
+  ⟨shift_leaves k n, shift_tx k n, shift_hogs_tx k n⟩
+
 /-! ## C12 — the iHam orthoXML export declares and references exactly the member genes -/
 
 theorem C12_export_members (H : Ham) (n : Node) (h : exportable n = true) :
@@ -517,5 +571,15 @@ theorem C20_species_fault_rejected (T : STree) (nm : Naming) (inp : Input) (s : 
 theorem C20_group_fault_rejected (T : STree) (nm : Naming) (inp : Input)
     (h : faultyL (fun id => (inp.species.flatMap (fun s => s.genes.map (·.id))).contains id) inp.groups = true) :
     ∃ err, load T nm inp = .error err := Pyham.C20_group_fault_rejected T nm inp h
+/-- the same in `species_resolve_mode="OMA"` (a clade named as species is attached to its only child that looks
+    like an OMA species code): a species element whose resolved name is not exactly one leaf is rejected -/
+theorem C20_oma_species_fault_rejected (T : STree) (nm : Naming) (inp : Input) (s : Species)
+    (hs : s ∈ inp.species) (e : Err) (h : resolveSpecies T nm (omaName T nm s.name) = .error e) :
+    ∃ err, loadOMA T nm inp = .error err := Pyham.C20_oma_species_fault_rejected T nm inp s hs e h
+
+/-- ... and the mode changes nothing for files whose species all name leaves of the tree -/
+theorem C20_oma_mode_conservative (T : STree) (nm : Naming) (inp : Input)
+    (h : ∀ s ∈ inp.species, ∃ p, T.findByName nm s.name = [p] ∧ T.isLeafAt p = true) :
+    loadOMA T nm inp = load T nm inp := loadOMA_eq_load_of_leaves T nm inp h
 
 end Pyham.Props
